@@ -13,13 +13,13 @@ def PC.retires : PC → List Obj
   | _ => []
 
 theorem mgrDone_pipe (σ : St) (t : Nat) (k : MK) : (mgrDone σ t k).mgr.pipe = σ.mgr.pipe := by
-  rw [mgrDone_mgr]; split <;> rfl
+  rw [mgrDone_mgr]
 
 theorem freeTail_pipe (σ : St) (t : Nat) (k : MK) : (freeTail σ t k).mgr.pipe = σ.mgr.pipe := by
-  rcases freeTail_cases σ t k with ⟨hm, _⟩ | ⟨_, hm, _⟩ | ⟨_, hm, _⟩ <;> rw [hm] <;> rfl
+  rcases freeTail_cases σ t k with ⟨hm, _⟩ | ⟨hm, _⟩ <;> rw [hm] <;> rfl
 
 theorem freeEnd_pipe (σ : St) (t : Nat) (k : MK) : (freeEnd σ t k).mgr.pipe = σ.mgr.pipe := by
-  rcases freeEnd_cases σ t k with ⟨_, hm, _⟩ | ⟨_, hm, _⟩ <;> rw [hm] <;> rfl
+  rw [(freeEnd_cases σ t k).1]; rfl
 
 /-- `add_freeable` overwrites the pending batch — but the batch is empty whenever that happens -/
 theorem batch_empty_at_f8 {σ : St} (I : MInvS σ) (t : Nat) (k : MK) (hpc : (σ.th t).pc = .f8 k)
